@@ -17,8 +17,11 @@ CLS = {0: SwitcherStateResponse, 1: SwitcherShutterStateResponse, 2: SwitcherThe
 
 def impl(kind, resp):
     try:
-        if kind == 3: return "session:" + SwitcherLoginResponse(resp).session_id
-        return world.show_response(KIND_OF[kind], CLS[kind](resp))
+        if kind == 3:
+            r = SwitcherLoginResponse(resp); t = "session:" + r.session_id; world.scribble(r); return t
+        r = CLS[kind](resp); t = world.show_response(KIND_OF[kind], r)
+        world.scribble(r)          # the response object is the caller's: what it does to it must not show in a later decoding
+        return t
     except Exception as e: return "exc:" + world.exc_name(e)
 
 
@@ -92,6 +95,8 @@ def run(tier, rnd, out):
         for t in range(0, 86400, 7): c = mk(0); c["fields"][2] = t; c["fields"][3] = 86399 - t; cs.append(c)
         for p in range(256): c = mk(1); c["fields"][0] = p; cs.append(c)
     run_stream(out, "encoded-replies", cs)
+    again = rnd.sample(cs, min(len(cs), 300)); again = again + again          # the same replies decoded a second time, after the caller overwrote the first results
+    run_stream(out, "same-replies-decoded-again", again)
     cs = [mk(k) for k in (0, 1, 2) for _ in range(40 if tier == "quick" else 1000)]
     run_stream(out, "through-the-state-queries", cs, through_api=True)
     captured(out)
